@@ -40,6 +40,7 @@ static int max_depth_done, max_ndepth_done;
 static int max_level_seen;
 static int n_plan_items;
 static int default_universe;
+static int stop_now;
 static vh_set_t seen, layout_seen, cursor_seen;
 
 typedef struct hist_s { unsigned char n; kop_t ops[MAXDEPTH]; } hist_t;
@@ -333,6 +334,10 @@ cursor_walks(khist_t *h, const kmodel_t *m, ldb_iter_t *it, int len, char *err, 
             return 0;
         }
         n_cursor_seqs++;
+        if ((n_cursor_seqs & 0xffff) == 0 && drv_deadline_hit()) {
+          stop_now = 1;   /* cut by the deadline: reported as exhaustive=false */
+          return 1;
+        }
         if (ldb_iter_status(it) != LDB_OK) {
           snprintf(err, en, "iterator status %d during cursor walk", ldb_iter_status(it));
           return 0;
@@ -497,7 +502,9 @@ body(void *arg) {
       int full = 0;
       char e[500];
       ldb_iter_t *it = ldb_iterator(h.db, NULL);
-      if (!vs_has(&cursor_seen, x->layout) && (int)cursor_seen.n < cursor_cap) {
+      /* each layout signature gets its full-length walk in exactly one shard */
+      if (!vs_has(&cursor_seen, x->layout) && (int)cursor_seen.n < cursor_cap &&
+          (int)(vh_mix(x->layout, 99) % (uint64_t)drv.nshards) == drv.shard && !stop_now) {
         vs_add(&cursor_seen, x->layout);
         full = 1;
         n_cursor_sigs++;
@@ -524,7 +531,7 @@ run_exec(exec_t *x, const hist_t *h, int check) {
   x->check = check;
   memset(&sc, 0, sizeof(sc));
   sc.hook_points = 1;
-  sc.step_max = 4000000;
+  sc.step_max = 2000000000L;   /* sequential runs: only a real livelock gets here (cursor walks take many points) */
   vfs_use(v);
   st = sch_run(body, x, &sc);
   n_points += (uint64_t)sch_steps;
@@ -602,7 +609,6 @@ fr_push(frontier_t *f, const hist_t *h, int nsnaps, int niters) {
   f->n++;
 }
 
-static int stop_now;
 
 
 static void
